@@ -783,6 +783,28 @@ async fn apply_hist_edit(inst: &Inst, u: &AkdLabel, p: &mut HistoryProof, tok: &
                 p.update_proofs.swap(i, j);
             }
         }
+        ["sel", is] | ["pastsel", is] | ["futuresel", is] => {
+            let idx: Vec<usize> = is.split(',').filter(|t| !t.is_empty()).map(num).collect::<Result<Vec<_>, _>>()?;
+            match parts[0] {
+                "sel" => p.update_proofs = idx.iter().filter_map(|i| p.update_proofs.get(*i).cloned()).collect(),
+                "pastsel" => {
+                    p.existence_of_past_marker_proofs = idx.iter().filter_map(|i| p.existence_of_past_marker_proofs.get(*i).cloned()).collect();
+                    p.past_marker_vrf_proofs = idx.iter().filter_map(|i| p.past_marker_vrf_proofs.get(*i).cloned()).collect();
+                }
+                _ => {
+                    p.non_existence_of_future_marker_proofs = idx.iter().filter_map(|i| p.non_existence_of_future_marker_proofs.get(*i).cloned()).collect();
+                    p.future_marker_vrf_proofs = idx.iter().filter_map(|i| p.future_marker_vrf_proofs.get(*i).cloned()).collect();
+                }
+            }
+        }
+        ["copy", i, j] => {
+            let (i, j) = (num(i)?, num(j)?);
+            if let Some(b) = p.update_proofs.get(j).cloned() {
+                if let Some(x) = p.update_proofs.get_mut(i) {
+                    *x = b;
+                }
+            }
+        }
         ["value", i, v] => {
             let v = parse_hex(v).ok_or(None)?;
             if let Some(x) = p.update_proofs.get_mut(num(i)?) {
